@@ -221,6 +221,23 @@ Theorem C09_multicomponent_macro_pinned_refuted :
    matches d = 1 /\ leaf_count (log d) = 1 /\ length (log d) = 2%nat).
 Proof. exact multicomponent_macro_pinned_refuted. Qed.
 
+(* 'enabled by' naming a port inside the sub-tree it disables (sub/tg, arr#3/tg):
+   what a skipped sub-tree still reports is a port of its own table, at the
+   skipped sub-tree's own expanded address followed by that port's name *)
+Theorem C09_enabling_port_address : forall qn m sub b j a,
+  sub_toggle (Port qn m (Some sub)) b = Some (j, a) ->
+  exists e', a = b ++ e' /\ index_op sub e' = Some j.
+Proof. exact sub_toggle_addr. Qed.
+
+(* regression witness: before the commit "fix: the enabling port inside a disabled
+   enumerated sub-tree ..." that address was collapsePath(buffer ++ "../" ++ value):
+   for arr#3/ (enabled by arr#3/tg) skipped at /arr1/ it was /arr#3/tg - an address
+   nothing dispatches; repaired: /arr1/tg.  Replayed: corpus/C09/defects.txt *)
+Theorem C09_enabled_inside_enumerated_pinned_refuted :
+  sub_toggle_pinned en_port [47;97;114;114;49;47] = Some (0%nat, [47;97;114;114;35;51;47;116;103]) /\
+  sub_toggle en_port [47;97;114;114;49;47] = Some (0%nat, [47;97;114;114;49;47;116;103]).
+Proof. exact enabled_inside_enumerated_pinned_refuted. Qed.
+
 (* regression witness: walk_ports_recurse0 before the "fix:" commit wrote a '/'
    behind every index, so the sub-tree name a#2b/ was walked as /a0/b/, /a1/b/
    (addresses it does not match); repaired: /a0b/, /a1b/ *)
